@@ -73,6 +73,16 @@ struct LayerM {
     bottom: Option<Row>,
     /// allocate all h lines (as Layer::new does) instead of only the lines that carry cells
     alloc_all: bool,
+    /// TRANSIENT STATE: a pending preview offset (Layer::set_preview_offset(Some(p))) while the document is saved;
+    /// the document's offset stays (x, y) = Layer::get_base_offset()
+    #[serde(default)]
+    preview: Option<(i32, i32)>,
+    /// how a Normal layer's content gets into the Layer: 0 = `lines` and properties assigned directly;
+    /// 1 = Layer::new(title, (w, h)), set_offset, set_char for every visible cell, flags assigned AFTERWARDS;
+    /// 2 = flags assigned FIRST, then set_offset / set_char, which obey them (a locked, hidden or alpha-locked layer stays empty,
+    /// a position-locked layer stays at (0,0)): the resulting document is what the model predicts in `expected`
+    #[serde(default)]
+    route: u8,
 }
 
 #[derive(Clone, Debug, Hash, PartialEq, Eq, Serialize, Deserialize)]
@@ -141,6 +151,12 @@ struct Doc {
     sauce: Option<SauceM>,
     /// tag of the boundary generator ("" for ordinary documents)
     tag: String,
+    /// TRANSIENT STATE: Some(k) = an overlay layer (Buffer::get_overlay_layer(k % layers)) with three visible cells exists while saving; it is not part of the document
+    #[serde(default)]
+    overlay: Option<u8>,
+    /// SaveOptions besides lossles_output = true (see `save_options`): every combination still is the lossless save path
+    #[serde(default)]
+    opts: u16,
 }
 
 fn prng_bytes(seed: u32, n: usize) -> Vec<u8> {
@@ -187,7 +203,10 @@ struct LayerObs {
     color: Option<(u8, u8, u8)>,
     flags: [bool; 5],
     transparency: u8,
+    /// the layer's real offset (get_base_offset), never a pending preview offset
     offset: (i32, i32),
+    /// a preview offset is pending (input class of the key only, never compared: the statement does not list it)
+    preview_pending: bool,
     size: (i32, i32),
     font_page: usize,
     /// row-major w*h, None = invisible
@@ -294,7 +313,8 @@ fn observe(buf: &Buffer) -> Obs {
                     l.properties.is_alpha_channel_locked,
                 ],
                 transparency: l.transparency,
-                offset: (l.get_offset().x, l.get_offset().y),
+                offset: (l.get_base_offset().x, l.get_base_offset().y),
+                preview_pending: l.get_preview_offset().is_some(),
                 size: (w, h),
                 font_page: l.default_font_page,
                 cells,
@@ -575,6 +595,13 @@ fn expected(doc: &Doc) -> Result<Obs, String> {
                 cells[y * w + x] = *c;
             }
         }
+        let (locked, hidden, pos_locked, alpha_locked) = (l.flags & 2 != 0, l.flags & 1 == 0, l.flags & 4 != 0, l.flags & 8 != 0 && l.flags & 16 != 0);
+        let drawn_under_flags = l.image.is_none() && l.route % 3 == 2;
+        if drawn_under_flags && (locked || hidden || alpha_locked) {
+            // Layer::set_char refuses: locked / invisible layer, or alpha locked and the target cell is still invisible
+            cells.iter_mut().for_each(|c| *c = None);
+        }
+        let offset = if drawn_under_flags && pos_locked { (0, 0) } else { (l.x, l.y) };
         layers.push(LayerObs {
             title: l.title.clone(),
             role: u8::from(l.image.is_some()),
@@ -582,7 +609,8 @@ fn expected(doc: &Doc) -> Result<Obs, String> {
             color: l.color,
             flags: [l.flags & 1 != 0, l.flags & 2 != 0, l.flags & 4 != 0, l.flags & 8 != 0, l.flags & 16 != 0],
             transparency: l.transparency,
-            offset: (l.x, l.y),
+            offset,
+            preview_pending: l.preview.is_some(),
             size: (w as i32, h as i32),
             font_page: slots[pick(l.fp, slots.len())],
             cells,
@@ -702,25 +730,44 @@ fn build(doc: &Doc) -> Result<Buffer, String> {
 
     buf.layers.clear();
     for l in &doc.layers {
-        let mut layer = Layer::new(l.title.clone(), (0, 0));
-        layer.set_size((l.w as i32, l.h as i32));
-        layer.lines = layer_lines(l, &slots)
-            .into_iter()
-            .map(|cells| Line {
-                chars: cells
-                    .into_iter()
-                    .map(|c| match c {
-                        None => AttributedChar::invisible(),
-                        Some((ch, fg, bg, attr, fp)) => {
-                            let mut a = TextAttribute::new(fg, bg);
-                            a.attr = attr;
-                            a.set_font_page(fp);
-                            AttributedChar::new(char::from_u32(ch).unwrap_or('?'), a)
-                        }
-                    })
-                    .collect(),
-            })
-            .collect();
+        let to_char = |c: CellObs| match c {
+            None => AttributedChar::invisible(),
+            Some((ch, fg, bg, attr, fp)) => {
+                let mut a = TextAttribute::new(fg, bg);
+                a.attr = attr;
+                a.set_font_page(fp);
+                AttributedChar::new(char::from_u32(ch).unwrap_or('?'), a)
+            }
+        };
+        let set_flags = |layer: &mut Layer| {
+            layer.properties.is_visible = l.flags & 1 != 0;
+            layer.properties.is_locked = l.flags & 2 != 0;
+            layer.properties.is_position_locked = l.flags & 4 != 0;
+            layer.properties.has_alpha_channel = l.flags & 8 != 0;
+            layer.properties.is_alpha_channel_locked = l.flags & 16 != 0;
+        };
+        let route = if l.image.is_some() { 0 } else { l.route % 3 };
+        let mut layer;
+        if route == 0 {
+            layer = Layer::new(l.title.clone(), (0, 0));
+            layer.set_size((l.w as i32, l.h as i32));
+            layer.lines = layer_lines(l, &slots).into_iter().map(|cells| Line { chars: cells.into_iter().map(to_char).collect() }).collect();
+            layer.properties.offset = Position::new(l.x, l.y);
+        } else {
+            // through the editing API: allocated layer, set_offset, set_char
+            layer = Layer::new(l.title.clone(), (l.w as i32, l.h as i32));
+            if route == 2 {
+                set_flags(&mut layer);
+            }
+            layer.set_offset((l.x, l.y));
+            for (y, line) in layer_lines(l, &slots).into_iter().enumerate() {
+                for (x, c) in line.into_iter().enumerate().take(l.w as usize) {
+                    if c.is_some() {
+                        layer.set_char((x as i32, y as i32), to_char(c));
+                    }
+                }
+            }
+        }
         if let Some(i) = &l.image {
             layer.role = Role::Image;
             layer.sixels.push(Sixel::from_data((i.w as i32, i.h as i32), i.vscale, i.hscale, prng_bytes(i.seed, i.w as usize * i.h as usize * 4)));
@@ -729,13 +776,21 @@ fn build(doc: &Doc) -> Result<Buffer, String> {
         layer.default_font_page = slots[pick(l.fp, slots.len())];
         layer.properties.mode = [Mode::Normal, Mode::Chars, Mode::Attributes][l.mode as usize % 3];
         layer.properties.color = l.color.map(|(r, g, b)| Color::new(r, g, b));
-        layer.properties.offset = Position::new(l.x, l.y);
-        layer.properties.is_visible = l.flags & 1 != 0;
-        layer.properties.is_locked = l.flags & 2 != 0;
-        layer.properties.is_position_locked = l.flags & 4 != 0;
-        layer.properties.has_alpha_channel = l.flags & 8 != 0;
-        layer.properties.is_alpha_channel_locked = l.flags & 16 != 0;
+        set_flags(&mut layer);
+        if let Some((px, py)) = l.preview {
+            layer.set_preview_offset(Some(Position::new(px, py)));
+        }
         buf.layers.push(layer);
+    }
+    if let Some(k) = doc.overlay {
+        if !buf.layers.is_empty() {
+            let idx = k as usize % buf.layers.len();
+            if let Some(o) = buf.get_overlay_layer(idx) {
+                o.set_char((0, 0), AttributedChar::new('O', TextAttribute::new(14, 4)));
+                o.set_char((1, 0), AttributedChar::new('\u{2593}', TextAttribute::new(300, 1)));
+                o.set_char((0, 1), AttributedChar::new('v', TextAttribute::new(TRANSPARENT, 2)));
+            }
+        }
     }
 
     if let Some(s) = &doc.sauce {
@@ -850,7 +905,10 @@ fn diff(exp: &Obs, got: &Obs, out: &mut Vec<(String, String)>) {
             push("layer.transparency".into(), format!("layer {i}: transparency {} became {}", e.transparency, g.transparency));
         }
         if e.offset != g.offset {
-            push("layer.offset".into(), format!("layer {i}: offset {:?} became {:?}", e.offset, g.offset));
+push(
+                if e.preview_pending { "layer.offset|preview_pending".to_string() } else { "layer.offset".to_string() },
+                format!("layer {i}: offset {:?} became {:?}{}", e.offset, g.offset, if e.preview_pending { " (a preview offset was pending while saving)" } else { "" }),
+            );
         }
         if e.size != g.size {
             push(format!("layer.size|{role}"), format!("layer {i}: size {:?} became {:?}", e.size, g.size));
@@ -1001,6 +1059,28 @@ fn diff(exp: &Obs, got: &Obs, out: &mut Vec<(String, String)>) {
     }
 }
 
+/// SaveOptions of the lossless save path: lossles_output = true, every other field from the bits of `o`
+fn save_options(o: u16) -> SaveOptions {
+    let bit = |b: u16| o & (1 << b) != 0;
+    let mut opts = SaveOptions::new();
+    opts.lossles_output = true;
+    opts.compress = !bit(0);
+    opts.save_sauce = bit(1);
+    opts.modern_terminal_output = bit(2);
+    opts.use_cursor_forward = !bit(3);
+    opts.use_repeat_sequences = bit(4);
+    opts.preserve_line_length = bit(5);
+    opts.longer_terminal_output = bit(6);
+    opts.use_extended_colors = !bit(7);
+    opts.normalize_whitespaces = !bit(8);
+    opts.output_line_length = if bit(9) { Some(1) } else { None };
+    opts.screen_preparation = [icy_engine::ScreenPreperation::None, icy_engine::ScreenPreperation::ClearScreen, icy_engine::ScreenPreperation::Home, icy_engine::ScreenPreperation::None][(o >> 10) as usize & 3];
+    opts.control_char_handling =
+        [icy_engine::ControlCharHandling::Ignore, icy_engine::ControlCharHandling::IcyTerm, icy_engine::ControlCharHandling::FilterOut, icy_engine::ControlCharHandling::Ignore][(o >> 12) as usize & 3];
+    opts.skip_lines = if bit(14) { Some(vec![0, 1]) } else { None };
+    opts
+}
+
 fn strip_digits(s: &str) -> String {
     let t: String = s.chars().filter(|c| !c.is_ascii_digit()).take(70).collect();
     t.trim().to_string()
@@ -1060,8 +1140,7 @@ fn roundtrip(doc: &Doc) -> Result<(Obs, Vec<(String, String)>), Verdict> {
     if let Some(s) = &mut exp.sauce {
         s.use_ice = doc.modes.1 == 2;
     }
-    let mut opts = SaveOptions::new();
-    opts.lossles_output = true;
+    let opts = save_options(doc.opts);
     let bytes = match buf.to_bytes("icy", &opts) {
         Ok(b) => b,
         Err(e) => return Err(Verdict::fail(format!("save.error|{}", strip_digits(&e.to_string())), format!("Buffer::to_bytes(\"icy\", lossless) failed: {e}"))),
@@ -1188,6 +1267,9 @@ fn cell() -> BoxedStrategy<Cell> {
     prop_oneof![
         3 => Just(Cell::I),
         6 => v(ch_short(), col_short(), col_short()),
+        // equality-blind cells: blank / default-attribute cells (AttributedChar's PartialEq ignores the font page) in every font page
+        2 => (prop_oneof![3 => Just(0x20u32), 1 => Just(0u32), 1 => Just(255u32), 1 => Just(0x41u32)], prop_oneof![4 => Just((7u32, 0u32)), 1 => Just((0u32, 0u32)), 1 => Just((7u32, 7u32))], prop_oneof![4 => Just(0u16), 1 => Just(1u16)], fp_sel())
+            .prop_map(|(c, (f, b), a, p)| Cell::V(c, f, b, a, p)),
         1 => v(ch_long(), col_short(), col_short()),
         1 => v(ch_short(), col_long(), col_short()),
         1 => v(ch_short(), col_short(), col_long()),
@@ -1262,8 +1344,12 @@ fn layer(max_rows: usize, max_len: usize) -> BoxedStrategy<LayerM> {
         prop_oneof![4 => Just(None), 1 => row(max_len).prop_map(Some)],
         any::<bool>(),
     );
-    (head, body)
-        .prop_map(|((title, image, mode, color, flags, transparency, x, y, fp), (rows, extra_w, extra_h, shape, bottom, alloc_all))| {
+    let transient = (
+        prop_oneof![9 => Just(None), 1 => (offset(), offset()).prop_map(Some)],
+        prop_oneof![8 => Just(0u8), 1 => Just(1u8), 1 => Just(2u8)],
+    );
+    (head, body, transient)
+        .prop_map(|((title, image, mode, color, flags, transparency, x, y, fp), (rows, extra_w, extra_h, shape, bottom, alloc_all), (preview, route))| {
             let longest = rows.iter().map(|r| r.cells.len()).max().unwrap_or(0) as u16;
             let (mut w, mut h) = (longest + extra_w, rows.len() as u16 + extra_h + u16::from(bottom.is_some()));
             match shape {
@@ -1291,6 +1377,8 @@ fn layer(max_rows: usize, max_len: usize) -> BoxedStrategy<LayerM> {
                 rows: if is_image { Vec::new() } else { rows },
                 bottom: if is_image { None } else { bottom },
                 alloc_all,
+                preview,
+                route,
             }
         })
         .boxed()
@@ -1306,6 +1394,8 @@ fn font_name() -> BoxedStrategy<String> {
     prop_oneof![
         3 => Just(stock_name()),
         1 => any::<u16>().prop_map(|i| icy_engine::FONT_NAMES[pick(i, icy_engine::FONT_NAMES.len())].to_string()),
+        2 => any::<u16>().prop_map(|i| icy_engine::SAUCE_FONT_NAMES[pick(i, icy_engine::SAUCE_FONT_NAMES.len())].to_string()),
+        1 => (0u32..300).prop_map(|n| format!("custom font {n}")),
         6 => uni_string(30),
     ]
     .boxed()
@@ -1463,8 +1553,9 @@ fn documents() -> BoxedStrategy<Doc> {
         font0(),
         prop_oneof![3 => Just(Vec::<FontM>::new()).boxed(), 4 => fonts(4)],
         prop_oneof![1 => Just(None), 1 => sauce(4).prop_map(Some)],
+        (prop_oneof![11 => Just(None), 1 => any::<u8>().prop_map(Some)], prop_oneof![3 => Just(0u16), 2 => any::<u16>(), 1 => (0u32..15).prop_map(|b| 1u16 << b)]),
     )
-        .prop_map(|((w, h), modes, layers, palette, font0, fonts, sauce)| Doc { w, h, modes, layers, palette, font0, fonts, sauce, tag: String::new() })
+        .prop_map(|((w, h), modes, layers, palette, font0, fonts, sauce, (overlay, opts))| Doc { w, h, modes, layers, palette, font0, fonts, sauce, tag: String::new(), overlay, opts })
         .boxed()
 }
 
@@ -1480,7 +1571,7 @@ fn boundary() -> BoxedStrategy<Doc> {
             fonts(2),
             prop_oneof![1 => Just(None), 1 => sauce(2).prop_map(Some)],
         )
-            .prop_map(|((w, h), modes, layers, palette, font0, fonts, sauce)| Doc { w, h, modes, layers, palette, font0, fonts, sauce, tag: String::new() })
+            .prop_map(|((w, h), modes, layers, palette, font0, fonts, sauce)| Doc { w, h, modes, layers, palette, font0, fonts, sauce, tag: String::new(), overlay: None, opts: 0 })
     };
     // a dense maximum-size layer: every row from a small pool of rows, repeated
     let dense = (
@@ -1500,7 +1591,7 @@ fn boundary() -> BoxedStrategy<Doc> {
             if fill > 0 {
                 rows = filled_rows(200, 120, fill == 2);
             }
-            LayerM { title, image: None, mode: 0, color: None, flags, transparency: 0, x: -50, y: 50, w: 200, h: 120, fp: 0, rows, bottom: None, alloc_all: false }
+            LayerM { title, image: None, mode: 0, color: None, flags, transparency: 0, x: -50, y: 50, w: 200, h: 120, fp: 0, rows, bottom: None, alloc_all: false, preview: None, route: 0 }
         });
     let long_text = (prop_oneof![Just(255usize), Just(256usize), Just(257usize), Just(65535usize), Just(65536usize), Just(65537usize)], prop_oneof![Just('a'), Just('é'), Just('\u{1F600}')])
         .prop_map(|(n, c)| std::iter::repeat(c).take(n / c.len_utf8() + 1).collect::<String>());
@@ -1542,11 +1633,13 @@ fn small_doc(layers: Vec<LayerM>, tag: &str) -> Doc {
         fonts: vec![FontM { slot: 256, kind: FontKind::Custom { name: "f".into(), w: 8, h: 8, big: false, seed: 7 } }],
         sauce: None,
         tag: tag.to_string(),
+        overlay: None,
+        opts: 0,
     }
 }
 
 fn plain_layer(title: &str, w: u16, h: u16, rows: Vec<Row>) -> LayerM {
-    LayerM { title: title.into(), image: None, mode: 0, color: None, flags: 1, transparency: 0, x: 0, y: 0, w, h, fp: 0, rows, bottom: None, alloc_all: false }
+    LayerM { title: title.into(), image: None, mode: 0, color: None, flags: 1, transparency: 0, x: 0, y: 0, w, h, fp: 0, rows, bottom: None, alloc_all: false, preview: None, route: 0 }
 }
 
 const S_CELL: Cell = Cell::V('s' as u32, 1, 2, 1, 0);
@@ -1622,14 +1715,20 @@ fn cell_value_case(i: u64) -> Doc {
 
 /// font names are independent of glyph data: slot {0, 1, 256} x glyphs {stock cp437, redrawn cp437, another built-in, custom 8x8, custom 512 glyphs 7x19}
 /// x name {stock default name, another built-in font's name, empty, foreign text}
-const FONT_NAME_CASES: u64 = 3 * 5 * 4;
+/// ... x {8 names incl. SAUCE font names "IBM VGA", "IBM VGA50", the last SAUCE font name, "custom font 3"} x SAUCE record {absent, present}
+const FONT_NAME_CASES: u64 = 3 * 5 * 8 * 2;
 fn font_name_case(i: u64) -> Doc {
-    let (slot, src, nm) = ([0u16, 1, 256][(i % 3) as usize], (i / 3) % 5, (i / 15) % 4);
+    let (slot, src, nm, with_sauce) = ([0u16, 1, 256][(i % 3) as usize], (i / 3) % 5, (i / 15) % 8, (i / 120) % 2 == 1);
+    let sn = icy_engine::SAUCE_FONT_NAMES;
     let name = match nm {
         0 => stock_name(),
         1 => icy_engine::FONT_NAMES[5 % icy_engine::FONT_NAMES.len()].to_string(),
         2 => String::new(),
-        _ => "Mein Font \u{1F600}".to_string(),
+        3 => "Mein Font \u{1F600}".to_string(),
+        4 => sn[0].to_string(),
+        5 => sn[1 % sn.len()].to_string(),
+        6 => sn[sn.len() - 1].to_string(),
+        _ => "custom font 3".to_string(),
     };
     let kind = match src {
         0 => FontKind::BuiltinAs { page: 0, name, edit: None },
@@ -1646,6 +1745,65 @@ fn font_name_case(i: u64) -> Doc {
         d.font0 = kind;
     } else {
         d.fonts.push(FontM { slot, kind });
+    }
+    if with_sauce {
+        d.sauce = Some(SauceM { title: "t".into(), author: "a".into(), group: String::new(), comments: vec!["c".into()], letter_spacing: true, aspect_ratio: false, use_ice: false });
+    }
+    d
+}
+
+/// equality-blind cells: AttributedChar == ignores the font page. ch {' ', NUL, 255, 'A'} x colours {default 7/0, 0/0, 7/7} x attr {0, bold} x
+/// ordered pair of font pages (a, b) from slots {0, 1, 255, 256}: row [c(a), c(b), c(a), invisible, c(b)], layer default page a
+const BLANK_CELL_CASES: u64 = 4 * 3 * 2 * 16;
+fn blank_cell_case(i: u64) -> Doc {
+    let (c, col, at, pa, pb) = (i % 4, (i / 4) % 3, (i / 12) % 2, (i / 24) % 4, (i / 96) % 4);
+    let ch = [0x20u32, 0, 255, 0x41][c as usize];
+    let (fg, bg) = [(7u32, 0u32), (0, 0), (7, 7)][col as usize];
+    let sel = |k: u64| sel_for(k as usize, 4);
+    let cell = |k: u64| Cell::V(ch, fg, bg, at as u16, sel(k));
+    let mut l = plain_layer("blank", 6, 2, vec![Row { cells: vec![cell(pa), cell(pb), cell(pa), Cell::I, cell(pb)], pad: 0 }, Row { cells: vec![cell(pb)], pad: 1 }]);
+    l.fp = sel(pa);
+    l.flags = if i % 2 == 0 { 1 } else { 1 | 8 };
+    let mut d = small_doc(vec![plain_layer("bg", 4, 2, vec![Row { cells: vec![L_CELL], pad: 0 }]), l], "");
+    let f = |slot: u16| FontM { slot, kind: FontKind::Custom { name: format!("f{slot}"), w: 8, h: 4, big: false, seed: slot as u32 } };
+    d.fonts = vec![f(1), f(255), f(256)];
+    d
+}
+
+/// TRANSIENT STATE: preview offset {none, other, (0,0), equal to the offset} x overlay {none, at layer 0, at layer 1} x
+/// construction route {direct, editing API then flags, flags then editing API} x flags {plain, position locked, alpha+alpha locked, locked, hidden, position+alpha locked}
+const TRANSIENT_CASES: u64 = 4 * 3 * 3 * 6;
+fn transient_case(i: u64) -> Doc {
+    let (pv, ov, route, fl) = (i % 4, (i / 4) % 3, (i / 12) % 3, (i / 36) % 6);
+    let mut l = plain_layer("state", 3, 2, vec![Row { cells: vec![S_CELL, Cell::I, L_CELL], pad: 0 }, Row { cells: vec![L_CELL], pad: 0 }]);
+    l.x = -3;
+    l.y = 2;
+    l.flags = [1u8, 1 | 4, 1 | 8 | 16, 1 | 2, 0, 1 | 4 | 8 | 16][fl as usize];
+    l.route = route as u8;
+    l.preview = [None, Some((4, -1)), Some((0, 0)), Some((-3, 2))][pv as usize];
+    let mut d = small_doc(vec![plain_layer("bg", 4, 2, vec![Row { cells: vec![S_CELL], pad: 0 }]), l], "");
+    d.overlay = [None, Some(0u8), Some(1u8)][ov as usize];
+    d
+}
+
+/// SAVE OPTIONS: every single option bit, none and all of them, with and without a SAUCE record (lossles_output stays true)
+const SAVE_OPTION_CASES: u64 = 17 * 2;
+fn save_option_case(i: u64) -> Doc {
+    let (o, with_sauce) = (i % 17, i / 17 == 1);
+    let mut d = small_doc(
+        vec![
+            plain_layer("bg", 4, 2, vec![Row { cells: vec![S_CELL, Cell::V(0x20, 7, 0, 0, 0), Cell::V(0x1B, 7, 0, 0, 0)], pad: 0 }]),
+            plain_layer("top", 3, 2, vec![Row { cells: vec![L_CELL, Cell::I, Cell::V(0x20, 1, 0, 8, 0)], pad: 0 }, Row { cells: vec![S_CELL], pad: 2 }]),
+        ],
+        "",
+    );
+    d.opts = match o {
+        0 => 0,
+        16 => u16::MAX,
+        b => 1u16 << (b - 1),
+    };
+    if with_sauce {
+        d.sauce = Some(SauceM { title: "t".into(), author: "a".into(), group: "g".into(), comments: vec!["c".into()], letter_spacing: false, aspect_ratio: true, use_ice: false });
     }
     d
 }
@@ -1829,6 +1987,10 @@ fn main() {
          layer_flags (exhaustive): role x mode x 32 flag sets x colour tag. row_shapes (exhaustive): every row over {invisible,short,long}^w, w=0..=4, x 4 following rows x 2 storage forms. \
          chunk_straddle (fixed table, both tiers): completely filled layers 64x64 .. 200x120 (64 KiB .. 384 KB of long-form records, and a long/short/invisible mix) x flags {none, locked, hidden, alpha+alpha-locked} x big layer first/second, and image layers with 64 KiB .. 384 KB of pixels. \
          font_names (exhaustive table): slot {0,1,256} x glyphs {stock, redrawn stock, other built-in, custom 8x8, custom 512 x 7x19} x name {stock default name, other built-in name, empty, foreign}. \
+         blank_cells (exhaustive table): cells that are equal under AttributedChar's PartialEq (which ignores the font page) next to each other in different font pages: char {' ',NUL,255,'A'} x colours {7/0,0/0,7/7} x attr {0,bold} x font page pairs from {0,1,255,256}. \
+         transient_state (exhaustive table): pending preview offset {none, other, (0,0), = offset} x overlay layer {none, at 0, at 1} x construction route {direct, set_char/set_offset then flags, flags then set_char/set_offset} x 6 flag sets; \
+         generated: 10% of layers with a pending preview offset, 10% each built through the editing API after / before the flags are set, 8% of documents with an overlay layer. The document's offset is get_base_offset(); overlay and preview are not part of the document. \
+         save_options (exhaustive table) and generated: SaveOptions other than lossles_output=true vary over all fields (half of the generated documents use non-default options). \
          sauce_buffer (exhaustive table): buffer size {0x0,0x5,5x0,1x1,81x26} x ice mode x SAUCE {absent, plain, all flags + comments} x slot-0 font {stock, custom glyphs under a SAUCE font name}. \
          font_routes (exhaustive table): base font {stock page, create_8 8x8, create_8 512 glyphs, from_bytes raw} x {plain clone, renamed clone, clone with 1 / 8 glyphs edited in place and stale cached checksum, \
          edited clone with refreshed checksum, three stale clones incl. a clone of a clone} x 3 slot layouts. font construction route is a generated dimension: built-in page, from_bytes raw/PSF1/PSF2, create_8, clone of an earlier slot \
@@ -1837,6 +1999,7 @@ fn main() {
          cell_values (exhaustive): product of boundary values char {0x41,255,256,0xD7FF,0xE000,0x10FFFF} x fg,bg {7,255,256,TRANSPARENT,0xFFFFFFFF} x font page {0,255,256,300} x attr {0,0x3FF,0x200}. \
          Non-trivial: >= 2 layers AND >= 1 long-form cell on a Normal layer AND >= 1 row terminator (a row of a Normal layer whose visible length is below the layer width); distinct by hash of the model.",
     );
+    eng.assume("a layer's offset is its real offset (Layer::get_base_offset); a pending preview offset and an overlay layer are editor state, not part of the document, and are not compared after loading");
     eng.assume("font slot 0 always exists (Buffer::get_font_dimensions indexes it unconditionally; a document without it cannot be rendered or saved by any path)");
     eng.assume("Image layers carry exactly one sixel at position (0,0) with width*height*4 bytes and no cells; Normal layers carry no sixels (the format document defines nothing else)");
     eng.assume("invisible cells are exactly AttributedChar::invisible(); attribute bits 10..=13 unused; no more lines than the layer height; cells stored beyond the layer width are not part of the document (Layer::get_char reports them invisible)");
@@ -1847,6 +2010,9 @@ fn main() {
     eng.enumerated(PartCfg::new("row_shapes", 0, 0).exhaustive(true), ROW_CASES, row_case, check);
     eng.enumerated(PartCfg::new("cell_values", 0, 0).exhaustive(true), CELL_VALUE_CASES, cell_value_case, check);
     eng.enumerated(PartCfg::new("font_names", 0, 0).exhaustive(true), FONT_NAME_CASES, font_name_case, check);
+    eng.enumerated(PartCfg::new("blank_cells", 0, 0).exhaustive(true), BLANK_CELL_CASES, blank_cell_case, check);
+    eng.enumerated(PartCfg::new("transient_state", 0, 0).exhaustive(true), TRANSIENT_CASES, transient_case, check);
+    eng.enumerated(PartCfg::new("save_options", 0, 0).exhaustive(true), SAVE_OPTION_CASES, save_option_case, check);
     eng.enumerated(PartCfg::new("sauce_buffer", 0, 0).exhaustive(true), SAUCE_BUFFER_CASES, sauce_buffer_case, check);
     eng.enumerated(PartCfg::new("font_routes", 0, 0).exhaustive(true), FONT_ROUTE_CASES, font_route_case, check);
     eng.enumerated(PartCfg::new("chunk_straddle", 0, 0).exhaustive(true), CHUNK_CASES, chunk_case, check);
